@@ -75,7 +75,7 @@ async def history(sh: Shard, rig, r, regime, nev):
             for t in waiters:
                 await t
             await rig.quiesce(settle=0.25)
-            variant = r.choice(["ip", "port", "src-id", "dst-id", "both-ids-swapped", "src-id-case", "dst-id-case"])
+            variant = r.choice(["ip", "port", "src-id", "dst-id", "both-ids-swapped", "src-id-case", "dst-id-case", "foreign-header-carrying-a-packet-for-us"])
             payload = r.choice([b"STATP\x01" + struct.pack(">H", r.randrange(300, 700)) + word(), b"RFERR", b"WCERR"])
             src_addr = rig.sim.addr
             s_id, d_id = SPA_ID, CLIENT_ID
@@ -96,6 +96,13 @@ async def history(sh: Shard, rig, r, regime, nev):
                     d_id = CLIENT_ID.swapcase()
             else:
                 s_id, d_id = CLIENT_ID, SPA_ID
+            raw_dgram = None
+            if variant == "foreign-header-carrying-a-packet-for-us":
+                # the outer header names another pair; its payload is a complete packet addressed to
+                # THIS pair - with and without stray bytes around the outer tags
+                inner_ = frame(SPA_ID, CLIENT_ID, payload)
+                s_id = other_spa
+                raw_dgram = b"<PACKT>" + r.choice([b"", b"x", b"\n", b" "]) + b"<SRCCN>" + other_spa + b"</SRCCN><DESCN>" + r.choice([CLIENT_ID, other_id]) + b"</DESCN><DATAS>" + inner_ + b"</DATAS>" + r.choice([b"", b"y"]) + b"</PACKT>"
             before_block = spa.struct.status_block
 
             def plain_state():
@@ -105,7 +112,7 @@ async def history(sh: Shard, rig, r, regime, nev):
 
             ev0, d0 = len(rig.events), len(w.net.dgrams)
             st0 = plain_state()
-            inject("misaddressed:" + variant, frame(s_id, d_id, payload), src=src_addr)
+            inject("misaddressed:" + variant, raw_dgram if raw_dgram is not None else frame(s_id, d_id, payload), src=src_addr)
             await rig.quiesce(settle=0.3)
             st1 = plain_state()
             changed_attrs = sorted(k_ for k_ in set(st0) | set(st1) if st0.get(k_) != st1.get(k_))
@@ -413,7 +420,7 @@ def main(tier, seed):
         run.need(h in hs, f"no pop by {h} observed")
     kinds = run.sets.get("arrival_kinds", set())
     run.need(run.counters.get("backlog_floods", 0) >= 1, "no backlog of more than a thousand datagrams was driven")
-    for v in ("ip", "port", "src-id", "dst-id", "both-ids-swapped", "src-id-case", "dst-id-case"):
+    for v in ("ip", "port", "src-id", "dst-id", "both-ids-swapped", "src-id-case", "dst-id-case", "foreign-header-carrying-a-packet-for-us"):
         run.need(f"misaddressed:{v}" in kinds, f"mis-addressed variant {v} not exercised")
     run.need(run.counters.get("unhandled_discards", 0) > 50 and run.counters.get("claimed_pops", 0) > 200, "too few pops observed")
     run.need(run.counters.get("histories_with_profile_switches", 0) > 10, "no history with timing-profile switches")
